@@ -83,7 +83,7 @@ PLAN["C05"] = {
 
 PLAN["C06"] = {
     "level": "exploration",
-    "rule": "every automaton (states 0..m-1) of TA(2..3,S,<=k) for S in {a:0},{a:0,b:0},{a:0,f:1},{a:0,b:0,g:2},{a:0,b:0,f:1,g:2},{a:0,g:2}, attached to a PRIVATE OnTheFlyAlphabet "
+    "rule": "every automaton (states 0..m-1) of TA(2..4,S,<=k) for S in {a:0},{a:0,b:0},{a:0,f:1},{a:0,b:0,g:2},{a:0,b:0,f:1,g:2},{a:0,g:2},{a:0,h:3},{a:0,f:1,h:3},{a:0,b:0,f:1},{a:0,f:1,g:2}, attached to a PRIVATE OnTheFlyAlphabet "
             "in which all symbols of S are registered in every possible order (so unused registered symbols occur): Complement() vs reference (product with A empty, union with A universal over S by "
             "subset construction, no symbol outside S / wrong rank, direct membership of all trees up to height 2); non-trivial = A neither empty nor universal",
     "assumptions": COMMON_ASSUMPTIONS + ["states are numbered 0..m-1 as the library's loaders produce them; a sparse-numbering sub-check is run separately"],
@@ -249,9 +249,9 @@ PLAN["C08"] = {
     "level": "model_checking", "engine": "E-HIST",
     "rule": "single calls (exhaustive enumeration): every automaton / ordered pair of TA(2..3,Sigma,<=k) loaded from Timbuk text into both BDD encodings: dump(load(A)) denotes L(A); Union (with/without "
             "maps), UnionDisjointStates (operands loaded with disjoint numbers), Intersection (with/without map), RemoveUnreachableStates, RemoveUselessStates (no useless state or rule left in the "
-            "dump), copy/assign, GetTopDownAut are language-exact and leave the operands' languages unchanged. Histories (breadth-first search): 3 slots per encoding, menu of 123 operations: load of "
+            "dump), copy/assign, GetTopDownAut are language-exact and leave the operands' languages unchanged. Histories (breadth-first search): 3 slots per encoding, menu of 159 operations: load of "
             "4 fixed automata (two pairs with overlapping state numbers), LoadFromString INTO a live automaton, copy, assign, destroy, Union, UnionDisjointStates (only when the reference says the "
-            "state sets are disjoint), Intersection, RemoveUnreachableStates, RemoveUselessStates (results may overwrite an operand), GetTopDownAut; in every state the dump of every live slot "
+            "state sets are disjoint), Intersection, RemoveUnreachableStates, RemoveUselessStates (results may overwrite an operand), GetTopDownAut, SetStateFinal, AddTransition (leaf and binary rule); searched from the empty world and from two seeded non-initial states in which two handles already share one transition table; in every state the dump of every live slot "
             "must denote the language of the slot's reference value; the state key contains final states, the identity of every transition table and the FULL content of every distinct table "
             "(tuple/state -> MTBDD paths, read with -fno-access-control), so junk left in a shared table is part of the state",
     "assumptions": HIST_ASSUMPTIONS + ["the process-wide symbolic alphabet is pre-registered in a fixed order (a, b, g) once per worker so that symbol codes, and with them the state keys, do not depend on earlier cases"],
